@@ -156,7 +156,7 @@ def parse_spec(path):
             cur_fn.r6[n] = sec
             section = sec
         elif s.startswith("%proof") and cur_fn is not None:
-            m = re.match(r'%proof\s+(before|after|start)(?:\s+"(.*)")?(?:\s+#(\d+))?\s*$', s)
+            m = re.match(r'%proof\s+(before|afterblock|after|start)(?:\s+"(.*)")?(?:\s+#(\d+))?\s*$', s)
             if not m:
                 raise Undecided("bad %%proof at %s:%d" % (path, lineno))
             sec = []
@@ -170,7 +170,7 @@ def parse_spec(path):
             cur_fn.proofs.append((m.group(1), m.group(2), int(m.group(3) or 0), sec, None))
             section = sec
         elif s.startswith("%ghost") and cur_fn is not None:
-            m = re.match(r'%ghost\s+(before|after|start)(?:\s+"(.*)")?(?:\s+#(\d+))?\s*$', s)
+            m = re.match(r'%ghost\s+(before|afterblock|after|start)(?:\s+"(.*)")?(?:\s+#(\d+))?\s*$', s)
             if not m:
                 raise Undecided("bad %%ghost at %s:%d" % (path, lineno))
             sec = []
@@ -549,6 +549,30 @@ def fn_inserts(u, m, d, it, info, used_fns, probe_fn):
             pos = it["body_start"] + 1
         else:
             a, z = find_anchor(body, anchor, occ, "proof in " + full)
+            if where == "afterblock":
+                # the anchor ends with `{`: go to just after its matching `}`
+                if not body[:z].rstrip().endswith("{"):
+                    raise Undecided("afterblock anchor must end with '{' (%s)" % full)
+                depth, k = 1, z
+                while k < len(body) and depth > 0:
+                    ch = body[k]
+                    if ch == "/" and body[k:k + 2] == "//":
+                        k = body.find("\n", k)
+                        if k < 0:
+                            break
+                        continue
+                    if ch == '"':
+                        k += 1
+                        while k < len(body) and body[k] != '"':
+                            k += 2 if body[k] == "\\" else 1
+                    elif ch == "{":
+                        depth += 1
+                    elif ch == "}":
+                        depth -= 1
+                    k += 1
+                if depth != 0:
+                    raise Undecided("anchor lost (unbalanced block after anchor in %s)" % full)
+                z = k
             pos = it["body_start"] + (a if where == "before" else z)
         ins.append((pos, -1 if where == "before" else 0, ptxt, ("spec", fs.specfile, first - 2, full, fs.props)))
         for lineno, t in sec:
